@@ -237,7 +237,7 @@ SCENARIOS = {"sends": make, "wrap": make_wrap}
 
 
 def run(ctx: Ctx) -> None:
-    bound = 4 if ctx.thorough else 2
+    bound = 5 if ctx.thorough else 3
     ctx.rule = (
         f"real UDPTunnel (connected through the real connect()) against a simulated gateway on the virtual loop; user: 1-3 send_cemi calls (0 or 2 concurrent), "
         f"auto-reconnect on/off; per TunnellingRequest the gateway answers one of {ACK_OPTS}, per re-ConnectRequest one of {CONN_OPTS}; EVERY schedule with <= {bound} "
